@@ -11,21 +11,24 @@ def sh(cmd, cwd=None, timeout=7200):
     return p.returncode, p.stdout.decode('utf-8', 'replace')
 src, name, checks = sys.argv[1], sys.argv[2], sys.argv[3].split(',')
 only = sys.argv[5] if len(sys.argv) > 5 and sys.argv[4] == '--only' else None
+env = 'OMPI_ALLOW_RUN_AS_ROOT=1 OMPI_ALLOW_RUN_AS_ROOT_CONFIRM=1 '
 W = '/tmp/seedchk'; out = '/verif/seeded/' + name; os.makedirs(out, exist_ok=True)
 patch = os.path.join(src, 'patch.diff')
 meta = json.load(open(os.path.join(src, 'meta.json'))) if os.path.exists(os.path.join(src, 'meta.json')) else {}
 res = dict(property=meta.get('property'), what=meta.get('what'), needs=meta.get('needs'), author_ran=meta.get('ran'))
-env = 'OMPI_ALLOW_RUN_AS_ROOT=1 OMPI_ALLOW_RUN_AS_ROOT_CONFIRM=1 '
 sh('git checkout -q -- . && git checkout -q --detach $(git -C /repo rev-parse HEAD)', cwd=W)
 # demo without the patch
-rc0, o0 = sh('g++ -std=c++17 -I%s/include %s/demo.cpp -o /tmp/seedchk_demo && /tmp/seedchk_demo' % (W, src), cwd=W)
+CXX = os.environ.get('SEED_DEMO_CXX', 'g++'); LIBS = os.environ.get('SEED_DEMO_LIBS', ''); RUN = os.environ.get('SEED_DEMO_RUN', '')
+demo_cmd = env + '%s -std=c++17 -I%s/include %s/demo.cpp -o /tmp/seedchk_demo %s && %s /tmp/seedchk_demo' % (CXX, W, src, LIBS, RUN)
+rc0, o0 = sh(demo_cmd, cwd=W)
 rc, o = sh('git apply %s' % patch, cwd=W)
 if rc != 0: print('patch does not apply', o); sys.exit(2)
-rc1, o1 = sh('g++ -std=c++17 -I%s/include %s/demo.cpp -o /tmp/seedchk_demo && /tmp/seedchk_demo' % (W, src), cwd=W)
+rc1, o1 = sh(demo_cmd, cwd=W)
 rcb, ob = sh('cmake --build _build -j16', cwd=W)
 rct, ot = sh(env + 'ctest --test-dir _build -j8 --timeout 600', cwd=W)
 passed = [l for l in ot.split('\n') if 'tests passed' in l]
 sh('git checkout -q -- .', cwd=W)
+res['demo_cmd'] = demo_cmd
 res['confirmed'] = dict(demo_without_patch_exit=rc0, demo_with_patch_exit=rc1, build_exit=rcb, ctest=passed[0].strip() if passed else ot[-300:])
 ok = rc0 == 0 and rc1 != 0 and rcb == 0 and passed and passed[0].startswith('100%')
 print('confirmed' if ok else 'NOT CONFIRMED', res['confirmed'])
